@@ -812,5 +812,28 @@ example : ∃ x ∈ ((⟨fun _ _ => 0, fun _ => 0, fun _ => 0⟩ : RBM ℝ 1 1).
   simp [RBM.gibbsStepB, Prog.flipMat, Prog.flipVec, Prog.bind, Prog.paths, flatM, List.ofFn_succ]
   rfl
 
+/-- **C05_replay_length.** The replay the harness performs (`run` on the recorded draws) succeeds EXACTLY on recordings that hold at
+least the `callShapes` element count: `gibbsStepsB k` from any batch of `B` rows replays a recording `ds` iff
+`k·B·(h+n) ≤ ds.length` (`PurificationRBM`: `k·B·(h+a+n)`; `sample` without a start state: plus the `B·n` fair coins), and then the
+leftover is the recording minus exactly that many draws (`C05_call_shapes`). A sampler that makes one call fewer or one more per
+pass therefore cannot be replayed onto the recorded pattern with nothing left over. -/
+theorem C05_replay_length (r : RBM ℝ n h) (q : PRBM ℝ n h a) (k : ℕ) {B : ℕ} (vs : Fin B → Fin n → Bool) (ds : List Bool) :
+    (((r.gibbsStepsB k vs).run ds).isSome ↔ k * (B * (h + n)) ≤ ds.length)
+    ∧ (((q.gibbsStepsB k vs).run ds).isSome ↔ k * (B * (h + a + n)) ≤ ds.length)
+    ∧ (((sampleFrom (r.gibbsStepsB (B := B) k) none).run ds).isSome ↔ B * n + k * (B * (h + n)) ≤ ds.length)
+    ∧ (((sampleFrom (q.gibbsStepsB (B := B) k) none).run ds).isSome ↔ B * n + k * (B * (h + a + n)) ≤ ds.length) := by
+  obtain ⟨-, -, -, -, d1, d2, d3, -, -⟩ := C05_call_shapes r q k vs (fun _ => false)
+  have d0 := (C05_call_shapes r q k vs (fun _ => false)).2.1
+  rw [(C05_call_shapes_list r q k B).2.2.2.2.2] at d0
+  exact ⟨draws_run_isSome d1 ds, draws_run_isSome d0 ds, draws_run_isSome d2 ds, draws_run_isSome d3 ds⟩
+
+/-- `C05_replay_length` on a concrete recording: one chain, one pass of a 1-visible / 1-hidden `BinaryRBM` needs 2 draws; the
+recording `[1]` is refused, `[1,0,1]` is replayed with `[1]` left over and returns the visible state `0`. -/
+example : ((⟨fun _ _ => 0, fun _ => 0, fun _ => 0⟩ : RBM ℝ 1 1).gibbsStepsB (B := 1) 1 (fun _ _ => false)).run [true] = none
+    ∧ (((⟨fun _ _ => 0, fun _ => 0, fun _ => 0⟩ : RBM ℝ 1 1).gibbsStepsB (B := 1) 1 (fun _ _ => false)).run
+        [true, false, true]).map (fun x => (x.1 0 0, x.2.2)) = some (false, [true]) := by
+  constructor <;>
+    simp [RBM.gibbsStepsB, Prog.iter, RBM.gibbsStepB, Prog.flipMat, Prog.flipVec, Prog.bind, Prog.run]
+
 end C05
 end QV.Props
